@@ -6,7 +6,7 @@
     PARTIAL: the round-trip theorem parse(print c) = abs c is proved here for the stream-selector
     sub-grammar with an unbounded number of matchers; for the rest of the grammar it is established by the
     correspondence against generator-computed expectations, not by a theorem (see DESIGN.md). *)
-From LogQLV Require Import Base.Bytes Base.FloatX Model.Tables Model.Syntax Model.Parser Proofs.ParserP Proofs.PipelineP Proofs.LogRangeP Proofs.QueryP Proofs.UnwrapP.
+From LogQLV Require Import Base.Bytes Base.FloatX Model.Tables Model.Syntax Model.Parser Proofs.ParserP Proofs.PipelineP Proofs.LogRangeP Proofs.QueryP Proofs.UnwrapP Model.Lexer Proofs.LexerP.
 
 (** every selector {l1 op1 "v1", ..., ln opn "vn"} with any number of matchers, all four operators, any value bytes (regex
     values that compile) and any label names -- whether the lexer classifies a name as Ident or as a keyword (by, on, json,
@@ -160,6 +160,28 @@ Example range_agg_example :
   parse_tokens (print_range_agg anch rn (fun _ => TIdent) RangeOpBytesRate sel [SLine OpNotRe ["x"%byte] false; SLogfmt [["k"%byte]] []] ["5"%byte; "m"%byte] 300000000000 None) =
     Parsed (ERange RangeOpBytesRate {| r_sel := sel; r_range := 300000000000; r_pipe := [SLine OpNotRe ["x"%byte] false; SLogfmt [["k"%byte]] []]; r_unwrap := None; r_offset := None |} None None).
 Proof. split; vm_compute; reflexivity. Qed.
+
+(** the lexer model (Model/Lexer.v, compared with lexer.Tokenize on every run): a text written as tokens -- identifiers,
+    keywords that are not function names, operators / punctuation, interpreted strings -- each followed by ANY non-empty white
+    space (blanks, tabs, newlines, carriage returns) lexes to exactly those tokens; hence the layout between tokens is insignificant *)
+Theorem lex_layout : forall l : list (ltok * bytes), Forall LexerP.wf_item l ->
+  lex (layout l) = LexOk (map (fun p => lres (fst p)) l).
+Proof. exact lex_layout_lemma. Qed.
+Print Assumptions lex_layout.
+
+Theorem lex_layout_insignificant : forall l1 l2 : list (ltok * bytes),
+  Forall LexerP.wf_item l1 -> Forall LexerP.wf_item l2 -> map fst l1 = map fst l2 -> lex (layout l1) = lex (layout l2).
+Proof. exact lex_layout_indep. Qed.
+
+Example lex_layout_example :
+  let sp := [" "%byte] in let nl := [x0a; x09; " "%byte] in
+  let l := [(LPunct TOpenBrace ["{"%byte], sp); (LId ["a"%byte; "p"%byte; "p"%byte], nl); (LPunct TRe ["="%byte; "~"%byte], sp); (LStr ["x"%byte; """"%byte], sp);
+            (LPunct TCloseBrace ["}"%byte], nl); (LPunct TPipe ["|"%byte], sp); (LWord TJSON ["j"%byte; "s"%byte; "o"%byte; "n"%byte], sp)] in
+  Forall LexerP.wf_item l /\ lex (layout l) = LexOk (map (fun p => lres (fst p)) l).
+Proof.
+  split; [|vm_compute; reflexivity].
+  repeat constructor; try discriminate; vm_compute; reflexivity.
+Qed.
 
 (** static rules *)
 Theorem rule_parameter_only_for_quantile : forall op p g u,
